@@ -281,6 +281,7 @@ def _nums_in(term):
 def run_case(op, x, d):
     """Evaluate the implementation; returns (coq_term, info) or None when the case must be discarded
     (non-finite or huge values: 1/0 has no counterpart in exact arithmetic)."""
+    import odl
     with np.errstate(all='ignore'):
         e = ser(op)
         val = vals(op(x))
@@ -291,11 +292,17 @@ def run_case(op, x, d):
         except Exception as ex:       # the model predicts WHETHER it raises, not the class
             Dop, raised = None, type(ex).__name__
         if Dop is not None:
-            De = ser(Dop)
-            Dd = vals(Dop(d))
-            Dlin = bool(Dop.is_linear)
-            if Dop.domain != op.domain or Dop.range != op.range:
-                De = '(OLeaf (LZero SF SF))'      # forces a mismatch: wrong spaces
+            try:
+                De = ser(Dop)
+                Dd = vals(Dop(d))
+                Dlin = bool(Dop.is_linear)
+                if Dop.domain != op.domain or Dop.range != op.range:
+                    raise Unsupported('derivative between the wrong spaces')
+            except (Unsupported, TypeError, AttributeError, IndexError, odl.OpDomainError, odl.OpRangeError,
+                    odl.OpTypeError, odl.set.space.LinearSpaceTypeError) as ex:
+                # the returned object is not something the model can produce: force a mismatch
+                De, Dd, Dlin = '(OLeaf (LZero SF SF))', [], False
+                raised = 'derivative object unusable: %s' % type(ex).__name__
             dterm = '(DOk %s %s %s)' % (De, C.b(Dlin), C.qs(Dd))
             allv = val + Dd + _floats_of(Dop)
         else:
